@@ -2027,8 +2027,9 @@ class Exec:
             raise ExtractionError(f'{self.unit}: try with {len(handlers)} handlers (line {self.curline})')
         hn = handlers[0]
         hbody = [c for c in hn.get('inner', []) if c.get('kind') == 'CompoundStmt']
-        if not hbody or any(c.get('kind') == 'VarDecl' and c.get('name') for c in hn.get('inner', [])):
-            raise ExtractionError(f'{self.unit}: only catch(...) handlers are modelled (line {self.curline})')
+        if not hbody:
+            raise ExtractionError(f'{self.unit}: catch handler without a body (line {self.curline})')
+        excvars = [c for c in hn.get('inner', []) if c.get('kind') == 'VarDecl' and c.get('name')]
         # write set of the try body (quiet dry run)
         saved_w = self.writes
         self.writes = set()
@@ -2054,6 +2055,10 @@ class Exec:
                 h.length[item[1]] = State.fresh(f'len({item[1]})', z3.IntSort())
                 h.assume(h.length[item[1]] >= 0)
         h.assume(thrown)
+        for ev_ in excvars:
+            # catch (T& e): the exception object is opaque (only its text is ever used)
+            h.names[ev_['id']] = ev_['name']
+            h.env[ev_['id']] = ObjRef('tmp:exception', ev_.get('type', {}).get('qualType', 'std::exception'))
         b = st.copy()
         b.assume(z3.Not(thrown))
         r_body = self.exec(bodyn, b)
